@@ -22,9 +22,13 @@ LEVEL = "model_checking"
 TECHNIQUE = "enumeration of hash seeds x repetitions in fresh processes and of all directory-listing / recipe-order permutations; bitwise comparison of archives"
 LEVEL_TEXT = (
     "the sources of run-to-run nondeterminism of a solve (string-hash seed, set iteration order of recipes, directory "
-    "listing order) are enumerated exhaustively over small domains; every resulting archive is compared member by member"
+    "listing order, wall clock, working/temporary/output location, user and host) are enumerated over small domains; every resulting "
+    "archive is compared member by member, YAML members also byte by byte"
 )
-LEVEL_NOTE = "seeds limited to the listed values; tiny grids; interpreted mode; tar member order and mtimes are not part of the comparison"
+LEVEL_NOTE = (
+    "seeds limited to the listed values; one alternative environment (clock +463 d, other directories/user/host, reversed listings); tiny grids; "
+    "interpreted mode; tar member order and mtimes are not part of the comparison; cores-independence not demanded"
+)
 FLOOR_NONTRIVIAL = 8
 
 GRID = [0.2, 0.6, 1.0]
@@ -35,32 +39,75 @@ CARDS = {
     "lo-qed": dict(order=[1, 1], mugrid=[[3.0, 4]], method="iterate-exact", iterations=1, xgrid=GRID),
     "nlo-2cores": dict(order=[2, 0], mugrid=[[6.0, 5], [3.0, 4]], method="truncated", xgrid=[0.05, 0.2, 0.5, 0.8, 1.0], cores=2),
 }
+# further header kinds: inverse matching at NLO; a target ON a threshold with expanded scale variation (recipes differing in a bool only)
+NEW_CARDS = {
+    "nlo-down": dict(order=[2, 0], init=[6.0, 5], mugrid=[[3.0, 4]], method="truncated", inversion="expanded", xgrid=GRID),
+    "nlo-thr-sv": dict(order=[2, 0], mugrid=[[4.5, 5], [4.5, 4]], xif=2.0, sv="expanded", method="truncated", xgrid=GRID),
+}
+CARDS.update(NEW_CARDS)
+# what differs between two runs besides the hash seed (applied in the fresh process before eko is imported, vf/ref/c47_digest.py)
+ENVS = {
+    "time": {"time_shift_s": 40000000.0},  # 463 days: year, month, day, hour, minute and second all differ
+    "location": {"location": "elsewhere"},  # cwd, TMPDIR, output path and file name, user, host
+    "listing": {"listing": "reversed"},  # every directory listing in descending instead of filesystem order
+}
+ENVS["all"] = {k: v for e in ("time", "location", "listing") for k, v in ENVS[e].items()}
 
 
-def _run_digest(cfg, seed):
+def _run_digest(cfg, seed, environment=None):
+    """Full digest {"members": as vf.tools.solve_digest, "yaml_raw": sha256 of the YAML bytes, "order": archive order}."""
     env = dict(os.environ)
     env["PYTHONHASHSEED"] = str(seed)
     scratch = os.environ["VERIF_SCRATCH_DIR"]
     out = subprocess.run(
-        [sys.executable, "-m", "vf.tools.solve_digest", json.dumps(cfg), scratch],
+        [sys.executable, "-m", "vf.ref.c47_digest", json.dumps(cfg), scratch, json.dumps(environment or {})],
         env=env,
         capture_output=True,
         text=True,
-        timeout=1200,
+        timeout=7200,  # a solve takes seconds; generous because the machine may be shared
     )
     for line in out.stdout.splitlines():
         if line.startswith("DIGEST "):
-            return json.loads(line[7:])
+            full = json.loads(line[7:])
+            # vacuity guard: one stored operator per requested target, else the run exercised nothing
+            nops = sum(1 for n in full["members"] if "operators/" in n and n.endswith(".lz4"))
+            if nops != len(cfg["mugrid"]) or set(full["yaml_raw"]) != {n for n in full["members"] if n.endswith(".yaml")}:
+                raise HarnessError(f"solve of {cfg} stored {nops} operators for {len(cfg['mugrid'])} targets: {sorted(full['members'])}")
+            return full
     raise HarnessError(f"digest subprocess failed: {out.stdout[-500:]} {out.stderr[-1500:]}")
+
+
+def _compare(dg, ref):
+    """First difference between two full digests -> (kind, message) or None.  Kinds: member-names, array-content,
+    yaml-content, file-content (as in round 1) and yaml-bytes (parsed equal, bytes differ)."""
+    a, b = dg["members"], ref["members"]
+    if sorted(a) != sorted(b):
+        return "member-names", f"members {sorted(set(a) ^ set(b))} differ"
+    for name in sorted(b):
+        if a[name] != b[name]:
+            kind = "array" if name.endswith(".lz4") else ("yaml" if name.endswith(".yaml") else "file")
+            return f"{kind}-content", f"member {name} differs: {str(a[name])[:200]} vs {str(b[name])[:200]}"
+    for name in sorted(ref["yaml_raw"]):
+        if dg["yaml_raw"].get(name) != ref["yaml_raw"][name]:
+            return "yaml-bytes", f"member {name} parses to the same data but its bytes differ (sha256 {dg['yaml_raw'].get(name)} vs {ref['yaml_raw'][name]})"
+    return None
 
 
 def evaluate(case):
     res = Result()
     kind = case["kind"]
     if kind == "seed":
-        dg = _run_digest(CARDS[case["card"]], case["seed"])
-        res.info = {"digest": dg}
+        full = _run_digest(CARDS[case["card"]], case["seed"])
+        dg = full["members"]
+        res.info = {"digest": dg, "full": full}
         res.outcome = f"{case['card']}:{len(dg)} members"
+        res.nontrivial = True  # _run_digest refuses archives without one operator per target
+        return res
+    if kind == "env":
+        full = _run_digest(CARDS[case["card"]], case["seed"], ENVS[case["env"]])
+        res.info = {"digest": full["members"], "full": full}
+        res.outcome = f"{case['card']}:{len(full['members'])} members:env={case['env']}"
+        res.nontrivial = True
         return res
     if kind == "iterdir":
         import pathlib
@@ -118,63 +165,80 @@ def run(ctx):
     cases = []
     for card in card_list:
         for seed in seeds:
-            for rep in range(reps):
+            for rep in range(reps if (ctx.thorough() or card not in NEW_CARDS) else 1):
                 cases.append(dict(kind="seed", card=card, seed=seed, rep=rep))
+    # other run-to-run differences (hash seed 0): everything at once for every card; thorough also one at a time
+    env_cases = [dict(kind="env", card=card, seed=0, env="all") for card in card_list]
+    if ctx.thorough():
+        env_cases += [dict(kind="env", card=card, seed=0, env=e) for card in card_list for e in ("time", "location", "listing")]
+    cases += env_cases
     for perm in itertools.permutations(range(3)):
         for yf in (True, False):
             cases.append(dict(kind="iterdir", perm=list(perm), yaml_first=yf))
     results = ctx.run_cases(cases, evaluate)
     # cross-case oracle: all digests of one card are identical
-    by_card = {}
+    by_card, env_runs = {}, []
     for case, (outcome, fails, nt, info, tb) in results:
         if case["kind"] == "seed":
-            by_card.setdefault(case["card"], []).append((case, info["digest"]))
+            by_card.setdefault(case["card"], []).append((case, info["full"]))
+        elif case["kind"] == "env":
+            env_runs.append((case, info["full"]))
     ndiff = 0
     for card, lst in by_card.items():
         lst.sort(key=lambda x: (x[0]["seed"], x[0]["rep"]))
         ref_case, ref = lst[0]
         for case, dg in lst[1:]:
-            if sorted(dg) != sorted(ref):
-                ctx.add_fail(case, f"solve/{card}/member-names", f"seed={case['seed']} rep={case['rep']}: members {sorted(set(dg) ^ set(ref))} differ from seed={ref_case['seed']} rep={ref_case['rep']}")
+            diff = _compare(dg, ref)
+            if diff:
+                ctx.add_fail(case, f"solve/{card}/{diff[0]}", f"seed={case['seed']} rep={case['rep']}: {diff[1]}; reference seed={ref_case['seed']} rep={ref_case['rep']}")
                 ndiff += 1
-                continue
-            for name in ref:
-                if dg[name] != ref[name]:
-                    kind = "array" if name.endswith(".lz4") else ("yaml" if name.endswith(".yaml") else "file")
-                    ctx.add_fail(case, f"solve/{card}/{kind}-content", f"seed={case['seed']} rep={case['rep']}: member {name} differs from seed={ref_case['seed']} rep={ref_case['rep']}: {str(dg[name])[:200]} vs {str(ref[name])[:200]}")
-                    ndiff += 1
-                    break
+    for case, dg in env_runs:
+        ref_case, ref = by_card[case["card"]][0]
+        diff = _compare(dg, ref)
+        if diff:
+            ctx.add_fail(
+                case,
+                f"solve/{case['card']}/environment-dependent/env={case['env']}/{diff[0]}",
+                f"same cards, same hash seed {case['seed']}, environment {ENVS[case['env']]}: {diff[1]}; reference: plain run seed={ref_case['seed']} rep={ref_case['rep']}",
+            )
+            ndiff += 1
     # strip bulky digests from samples
     for s in ctx.samples:
         if isinstance(s.get("info"), dict) and "digest" in s["info"]:
             s["info"] = {"members": len(s["info"]["digest"]), "example": sorted(s["info"]["digest"])[:4]}
     ctx.extra.update(
         states=len(cases),
-        transitions=sum(len(d) for lst in by_card.values() for _, d in lst),
+        transitions=sum(len(d["members"]) for lst in by_card.values() for _, d in lst) + sum(len(d["members"]) for _, d in env_runs),
         traces_validated_against_impl=len(cases),
         seeds=seeds,
         repetitions=reps,
     )
     ctx.rule = (
-        f"fresh processes: {len(card_list)} tiny cards (thresholds up/down, two targets, QED) x PYTHONHASHSEED in {seeds} x {reps} repetitions, "
-        "all digests of a card compared member by member (names, decompressed array bytes, compressed bytes, parsed YAML); in-process: all 6 "
+        f"fresh processes: {len(card_list)} tiny cards (thresholds up/down, two targets, QED, 2 cores, NLO inverse matching, target on a threshold "
+        f"with expanded scale variation) x PYTHONHASHSEED in {seeds} x {reps} repetitions (quick: 1 for the last two cards), plus per card one run "
+        "(seed 0) with every clock shifted by 463 days + other cwd/TMPDIR/output path/user/host + all directory listings reversed (thorough: also "
+        "each of the three alone); all digests of a card compared member by member with its first plain run (names, decompressed array bytes, "
+        "compressed bytes, parsed YAML, raw YAML bytes); a run counts only if it stored one operator per target; in-process: all 6 "
         "permutations x 2 of the operators directory listing while re-reading a 3-operator archive; non-trivial = all seed cases and non-identity permutations"
     )
-    ctx.assumptions += ["recipe-order permutations are enumerated in C03", "tar member order and timestamps are not compared"]
+    ctx.assumptions += [
+        "recipe-order permutations are enumerated in C03",
+        "tar member order and timestamps are not compared (the statement speaks of names and contents)",
+        "independence of the number of cores is not demanded by the statement: the 2-core card is compared with itself only",
+        "clocks are shifted through the Python-level time/datetime interfaces; C-level clocks (file mtimes) stay real",
+    ]
 
 
 def replay(case):
     """Re-execute one case without the explorer (seed cases are compared with a seed-0 run)."""
-    if case["kind"] != "seed":
+    if case["kind"] not in ("seed", "env"):
         return evaluate(case)
     res = Result()
     ref = _run_digest(CARDS[case["card"]], 0)
-    dg = _run_digest(CARDS[case["card"]], case["seed"])
-    if sorted(dg) != sorted(ref):
-        res.fail(f"solve/{case['card']}/member-names", f"members differ: {sorted(set(dg) ^ set(ref))}")
-    else:
-        for name in ref:
-            if dg[name] != ref[name]:
-                res.fail(f"solve/{case['card']}/content", f"member {name} differs")
+    dg = _run_digest(CARDS[case["card"]], case["seed"], ENVS[case["env"]] if case["kind"] == "env" else None)
+    diff = _compare(dg, ref)
+    if diff:
+        mid = f"environment-dependent/env={case['env']}/" if case["kind"] == "env" else ""
+        res.fail(f"solve/{case['card']}/{mid}{diff[0]}", diff[1])
     res.outcome = "replayed"
     return res
